@@ -87,6 +87,10 @@ impl Connector for LoadBalanceConnector {
         Ok(())
     }
 
+    fn members(&self) -> &[String] {
+        &self.connectors
+    }
+
     async fn verify(&self, state: Arc<GlobalState>) -> Result<(), Error> {
         ensure!(!self.connectors.is_empty(), "connectors must not be empty");
         for n in &self.connectors {
@@ -95,6 +99,24 @@ impl Connector for LoadBalanceConnector {
                 "connector not defined: {}",
                 n
             );
+        }
+        // a request handed to a load balancer that can reach itself again would be passed
+        // around forever: follow the members and refuse such a configuration
+        let mut todo: Vec<&String> = self.connectors.iter().collect();
+        let mut seen: Vec<&String> = Vec::new();
+        while let Some(n) = todo.pop() {
+            ensure!(
+                n != &self.name,
+                "load balancer {} is (indirectly) a member of itself",
+                self.name
+            );
+            if seen.contains(&n) {
+                continue;
+            }
+            seen.push(n);
+            if let Some(c) = state.connectors.get(n) {
+                todo.extend(c.members().iter());
+            }
         }
         Ok(())
     }
